@@ -5,6 +5,8 @@
   R3.2 norms / intra-anchor distances scale by s: orthonormal frame on every path (R1.1), transpose pair (R1.2),
        single multiplicative scale (R1.3)
   R3.3 the frame neighbours are the two lowest-numbered bonded atoms (R1.4); frames recomputed per call (R2.1)
+  R3.4 the recorded anchor and the frame of the stored coordinates come from one selection of the nearest anchor
+       (not argmin for one table and an `== minimum` mask for the other: they disagree on exact ties)
 """
 from ..core import Ctx
 from . import frames, exmap
@@ -28,6 +30,7 @@ SPEC = {
 
 def run(ctx: Ctx):
     ctx.attempt("R3.1", lambda: exmap.r3_1(ctx))
+    ctx.attempt("R3.4", lambda: exmap.r3_4(ctx))
     ctx.attempt("R1.1", lambda: frames.orthonormal(ctx, "R1.1"))
     ctx.attempt("R1.2", lambda: exmap.r1_2(ctx))
     ctx.attempt("R1.3", lambda: exmap.r1_3(ctx))
